@@ -477,6 +477,14 @@ func buildIdioms() []idiom {
 		addN("nested-throw-items-on-stack", newAsm().try(false, "C", "").load(0, mode, 0).jmp(opcode.ENDTRY, "E").label("C").op(opcode.DROP).jmp(opcode.ENDTRY, "E").label("E").ops(opcode.DEPTH), throws)
 	}
 	addN("nested-throw-items-on-stack-loop", newAsm().label("L").try(false, "C", "").load(0, ldHash, 0).jmp(opcode.ENDTRY, "E").label("C").op(opcode.DROP).jmp(opcode.ENDTRY, "E").label("E").jmp(opcode.JMP, "L"), throws)
+	ptrSub := mkSub(newAsm().ops(opcode.NOP, opcode.NOP).op(opcode.PUSHINT64, hostileData...).op(opcode.DROP).jmp(opcode.PUSHA, "T").op(opcode.RET).label("T").op(opcode.PUSH1), 0)
+	for _, pad := range []int{0, 1, 2} {
+		a := newAsm().load(0, ldHash, 0)
+		for range pad {
+			a.op(opcode.NOP)
+		}
+		addN("nested-foreign-pointer-calla", a.op(opcode.CALLA).op(opcode.PUSHINT64, hostileData...).op(opcode.PUSHINT128, append(hostileData, hostileData...)...), ptrSub)
+	}
 	addN("nested-recursive-load", newAsm().load(0, ldFlags, 0), mkSub(newAsm().load(0, ldFlags, 0), 0))
 	return l
 }
